@@ -11,6 +11,7 @@ import (
 	"os"
 	"path/filepath"
 	"reflect"
+	"regexp"
 	"strings"
 	"sync"
 	"unicode/utf16"
@@ -191,6 +192,19 @@ func firstDiff(a, b []bmNode, path string) string {
 		return d.Text
 	}
 	return ""
+}
+
+var quotedRe = regexp.MustCompile(`"(?:[^"\\]|\\.)*"`)
+var digitsRe = regexp.MustCompile(`[0-9]+`)
+
+// errClass reduces an error message to its stable skeleton (no quoted values, no numbers), keeping the innermost part.
+func errClass(msg string) string {
+	m := digitsRe.ReplaceAllString(quotedRe.ReplaceAllString(msg, "_"), "#")
+	parts := strings.Split(m, ": ")
+	if len(parts) > 3 {
+		parts = parts[len(parts)-3:]
+	}
+	return strings.Join(parts, ": ")
 }
 
 func titleCount(f []bmNode, t string) int {
@@ -597,8 +611,26 @@ func projOutline(path string) ([]bmNode, error) {
 // ---------------------------------------------------------------- replay
 
 type bmWorker struct {
+	n     int
 	dir   string
 	bases map[int]string
+}
+
+// plainConf writes classic xref tables and no object streams (default configuration otherwise).
+func plainConf() *model.Configuration {
+	c := model.NewDefaultConfiguration()
+	c.WriteObjectStream = false
+	c.WriteXRefStream = false
+	return c
+}
+
+// conf alternates between the default configuration (nil) and plainConf, so that both writer paths carry bookmarks.
+func (w *bmWorker) conf(c *bmCase) *model.Configuration {
+	w.n++
+	if w.n%4 == 0 {
+		return nil
+	}
+	return plainConf()
 }
 
 func (w *bmWorker) base(np int) string {
@@ -654,7 +686,7 @@ func (w *bmWorker) roundTrip(tag string, c *bmCase, src, target string, exp []bm
 	// import the export into a document with the same pages that already has bookmarks (replace)
 	out := filepath.Join(w.dir, tag+"-d2.pdf")
 	os.Remove(out)
-	err = api.ImportBookmarksFile(target, j1, out, true, nil)
+	err = api.ImportBookmarksFile(target, j1, out, true, plainConf())
 	if !expImportable {
 		if err == nil {
 			fail(tag+"-reimport-accepted", "import of an exported tree violating the importer's page order precondition was accepted", nil)
@@ -662,7 +694,7 @@ func (w *bmWorker) roundTrip(tag string, c *bmCase, src, target string, exp []bm
 		return
 	}
 	if err != nil {
-		fail(tag+"-reimport-error", "importing the exported JSON failed", err.Error())
+		fail(tag+"-reimport-error|"+errClass(err.Error()), "importing the exported JSON failed: "+err.Error(), err.Error())
 		return
 	}
 	j2 := filepath.Join(w.dir, tag+"-e2.json")
@@ -699,7 +731,7 @@ func (w *bmWorker) run(c *bmCase, decoy string, fail func(key, what string, got 
 	writeBMJSON(js, c.Tree)
 	d1 := filepath.Join(w.dir, "d1.pdf")
 	os.Remove(d1)
-	err := api.ImportBookmarksFile(base, js, d1, true, nil)
+	err := api.ImportBookmarksFile(base, js, d1, true, w.conf(c))
 	if !c.Importable {
 		if err == nil {
 			fail("import-accepted", "import of a forest violating the precondition (page exists, pages ordered) was accepted", nil)
@@ -708,7 +740,7 @@ func (w *bmWorker) run(c *bmCase, decoy string, fail func(key, what string, got 
 			fail("import-rejected-output", "rejected import left an output file", nil)
 		}
 	} else if err != nil {
-		fail("import-error", "import of a valid forest failed", err.Error())
+		fail("import-error|"+errClass(err.Error()), "import of a valid forest failed: "+err.Error(), err.Error())
 	} else {
 		// the written outline, read without pdfcpu's exporter, is the imported forest
 		got, perr := projOutline(d1)
